@@ -116,9 +116,9 @@ type Text struct{ S string }
 type Out struct{ E Expr }
 
 type If struct {
-	Conds  []Expr   // if, elif...
-	Bodies [][]Node // one per condition
-	Else   []Node
+	Conds   []Expr   // if, elif...
+	Bodies  [][]Node // one per condition
+	Else    []Node
 	HasElse bool
 }
 
